@@ -49,23 +49,29 @@ class Module:
 
 
 def _gen_one(args):
-    mod, scratch, (name, consts) = args
-    wd = os.path.join(scratch, "gen-" + "".join(c if c.isalnum() or c in "-." else "_" for c in name))
+    mod, scratch, c = args
+    if not isinstance(c, dict):
+        name, consts = c
+        c = dict(name=name, consts=consts, neg=name.startswith("NEG:"))
+    name = c["name"]
+    module = c.get("module") or mod.gen_module or ("Gen_" + mod.name)
+    inv = c.get("invariants", mod.invariants)
+    props = c.get("props", mod.gen_props)
+    wd = os.path.join(scratch, "gen-" + "".join(ch if ch.isalnum() or ch in "-." else "_" for ch in name))
     cfg = "SPECIFICATION %s\nCONSTANTS\n%s\n%s%sCHECK_DEADLOCK FALSE\n" % (
-        mod.gen_spec, consts, ("INVARIANTS %s\n" % mod.invariants) if mod.invariants else "",
-        ("PROPERTIES %s\n" % mod.gen_props) if mod.gen_props else "")
-    neg = name.startswith("NEG:")
-    rc, out = vlib.run_tlc(wd, mod.gen_module or ("Gen_" + mod.name), cfg, workers=mod.gen_workers, timeout=3000,
+        c.get("spec", mod.gen_spec), c["consts"], ("INVARIANTS %s\n" % inv) if inv else "",
+        ("PROPERTIES %s\n" % props) if props else "")
+    rc, out = vlib.run_tlc(wd, module, cfg, workers=c.get("workers", mod.gen_workers), timeout=3000,
                            java_opts="-Xmx3g -XX:ParallelGCThreads=2")
-    if neg:
+    if c.get("neg"):
         if not vlib.tlc_violation(out):
             raise vlib.ToolFailure("vacuity guard: the mutated model %s was expected to violate a property" % name)
         return name, [], 0, 0
     if "No error has been found" not in out:
         if vlib.tlc_violation(out):
-            raise vlib.ToolFailure("design-level invariant violated in Gen_%s (%s): the specification itself is "
-                                   "inconsistent\n%s" % (mod.name, name, vlib.tlc_error_excerpt(out, 60)))
-        raise vlib.ToolFailure("Gen_%s (%s) failed:\n%s" % (mod.name, name, vlib.tlc_error_excerpt(out)))
+            raise vlib.ToolFailure("design-level property violated in %s (%s): the specification itself is "
+                                   "inconsistent\n%s" % (module, name, vlib.tlc_error_excerpt(out, 60)))
+        raise vlib.ToolFailure("%s (%s) failed:\n%s" % (module, name, vlib.tlc_error_excerpt(out)))
     cases = sorted(set(vlib.tlc_tagged(out, "CASE")))
     gen, dist = vlib.tlc_counts(out)
     return name, cases, gen, dist
